@@ -84,6 +84,17 @@ def transform_zoo(n):
         T.append(("regions-selector", lambda: selector.RegionsSelector(("x", "y"), ("a", "b"),
                                                                         {1: models.Shift(1) & models.Scale(2), 2: models.Scale(3) & models.Shift(-1)},
                                                                         selector.LabelMapperArray(mask), undefined_transform_value=-9.0)))
+        # a dictionary label mapper whose keys were inserted unsorted and overlap within atol at x = 3.0 (the last matching key wins:
+        # the order of the keys is part of the model), and a range mapper with unsorted ranges
+        lab = lambda v: models.Mapping((0,), n_inputs=2) | models.Const1D(v)      # noqa: E731
+        T.append(("regions-selector/dict-unsorted-overlap", lambda: selector.RegionsSelector(
+            ("x", "y"), ("a", "b"), {1: models.Shift(1) & models.Scale(2), 2: models.Scale(3) & models.Shift(-1)},
+            selector.LabelMapperDict(("x", "y"), {3.1: lab(1), 2.9: lab(2), 7.4: lab(1)}, inputs_mapping=models.Mapping((0,), n_inputs=2), atol=0.15),
+            undefined_transform_value=-9.0)))
+        T.append(("regions-selector/range-unsorted", lambda: selector.RegionsSelector(
+            ("x", "y"), ("a", "b"), {1: models.Shift(1) & models.Scale(2), 2: models.Scale(3) & models.Shift(-1)},
+            selector.LabelMapperRange(("x", "y"), {(7.0, 9.0): lab(2), (2.0, 4.0): lab(1)}, inputs_mapping=models.Mapping((0,), n_inputs=2)),
+            undefined_transform_value=-9.0)))
         T.append(("grating", lambda: models.Mapping((0, 1, 1)) | (models.Scale(1e-6) & models.Scale(0.01) & models.Scale(0.01)) |
                   sp.AnglesFromGratingEquation3D(20000, 1) | models.Mapping((0, 1), n_inputs=3)))
     else:
